@@ -10,6 +10,8 @@ import (
 	"strconv"
 	"unicode"
 
+	"golang.org/x/text/unicode/norm"
+
 	"github.com/ah-naf/borno/token"
 	"github.com/ah-naf/borno/utils"
 )
@@ -245,6 +247,38 @@ func VH_step(n int, c int) {
 	for i := 0; i < n; i++ {
 		src[i] = verifNondetRune()
 	}
+	stepCheck(src, c)
+}
+
+// specKeywordTexts: the 15 keywords (E.1), by code point.
+var specKeywordTexts = []string{
+	"\u09ab\u09be\u0982\u09b6\u09a8", "\u09a7\u09b0\u09bf", "\u09ab\u09b0", "\u09af\u09a6\u09bf", "\u09a8\u09be\u09b9\u09df", "\u09af\u09a4\u0995\u09cd\u09b7\u09a3", "\u09b8\u09a4\u09cd\u09af", "\u09ae\u09bf\u09a5\u09cd\u09af\u09be", "nil", "\u09a6\u09c7\u0996\u09be\u0993", "\u09ab\u09c7\u09b0\u09a4", "\u09a5\u09be\u09ae\u09cb", "\u099a\u09be\u09b2\u09bf\u09df\u09c7_\u09af\u09be\u0993", "\u098f\u09ac\u0982", "\u09ac\u09be",
+}
+
+// VH_kwNear (C09): "a word is a keyword exactly when it equals one of the 15 keywords", decided
+// in the neighbourhood of every keyword (the all-symbolic VH_step does not reach words longer
+// than its bound). mode 0: keyword ki with the code point at one position replaced by an
+// arbitrary code point, followed by an arbitrary code point; mode 1 / 2: the canonically
+// equivalent NFD / NFC spelling of the keyword (a different code point sequence when it differs
+// at all — then it is an identifier), followed by an arbitrary code point.
+func VH_kwNear(ki int, mode int) {
+	kw := []rune(specKeywordTexts[ki])
+	var word []rune
+	switch mode {
+	case 0:
+		word = append(word, kw...)
+		word[verifChoice(len(kw))] = verifNondetRune()
+	case 1:
+		word = []rune(norm.NFD.String(string(kw)))
+	default:
+		word = []rune(norm.NFC.String(string(kw)))
+	}
+	src := append(word, verifNondetRune())
+	stepCheck(src, 0)
+}
+
+func stepCheck(src []rune, c int) {
+	n := len(src)
 	line0 := verifNondetInt(1, 100000)
 	s := NewScanner(src)
 	s.start = c
@@ -486,5 +520,108 @@ func VH_integer(n int) {
 	if len(s.tokens) == 1 {
 		v, isF := s.tokens[0].Literal.(float64)
 		verifAssert("integer-literal-denotes-the-nearest-double", isF && v == want)
+	}
+}
+
+// midpoints: exact decimal expansions of the point halfway between two adjacent doubles. Any
+// further non-zero digit moves the literal off the tie, so every digit of such a literal —
+// however far to the right — takes part in deciding its value.
+var midpoints = []string{
+	"1.00000000000000011102230246251565404236316680908203125",
+	"0.100000000000000012490009027033011079765856266021728515625",
+	"9007199254740993.",
+	"123456.7890000000115833245217800140380859375",
+}
+
+// VH_midpoint (C10): a midpoint literal followed by k arbitrary digits (either script). The
+// value must be strconv.ParseFloat of the whole transliterated lexeme; a lexer that hands
+// ParseFloat anything else (a prefix, a re-rendered numeral) is refuted by the solver through
+// the uninterpreted parse function, and the counterexample's digits decide the rounding natively.
+func VH_midpoint(which int, k int) {
+	pre := []rune(midpoints[which])
+	n := len(pre) + k
+	src := make([]rune, n)
+	copy(src, pre)
+	for i := len(pre); i < n; i++ {
+		src[i] = verifNondetRune()
+		verifAssume(sDigit(src[i]))
+	}
+	utils.HadError = false
+	s := NewScanner(src)
+	s.scanToken()
+	ascii := make([]rune, n)
+	for i := 0; i < n; i++ {
+		ascii[i] = sDigitValue(src[i])
+	}
+	want, err := strconv.ParseFloat(string(ascii), 64)
+	verifAssert("midpoint-literal-parses", err == nil)
+	verifAssert("midpoint-literal-is-one-token", len(s.tokens) == 1 && !utils.HadError && s.current == n)
+	if len(s.tokens) == 1 {
+		v, isF := s.tokens[0].Literal.(float64)
+		verifAssert("midpoint-literal-value-is-parsefloat-of-whole-lexeme", isF && v == want)
+	}
+}
+
+// VH_overflow (C10): integer literals around the range limit of a double. n digits: a lead
+// digit, two further arbitrary digits (each in either script), then zeros.
+//
+//	lead 0: the lead is 1..9 (n >= 310: always out of range -> diagnostic, no token)
+//	lead 1: the lead is 2..9 (n = 309: always out of range)
+//	lead 2: the first n-308 digits are zeros, so the value is below 1e308: always a token
+//
+// Out of range is what strconv.ParseFloat reports for the transliterated lexeme (documented:
+// ErrRange beyond MaxFloat64 = 1.797…e308).
+func VH_overflow(n int, lead int) {
+	src := make([]rune, n)
+	for i := 0; i < n; i++ {
+		src[i] = '0'
+	}
+	sym := func(i int) {
+		src[i] = verifNondetRune()
+		verifAssume(sDigit(src[i]))
+	}
+	switch lead {
+	case 0:
+		sym(0)
+		verifAssume(sDigitValue(src[0]) != '0')
+		sym(1)
+		sym(2)
+	case 1:
+		sym(0)
+		verifAssume(sDigitValue(src[0]) >= '2')
+		sym(1)
+		sym(2)
+	default:
+		for i := 0; i < n-308; i++ {
+			if verifChoice(2) == 1 {
+				src[i] = 0x9E6
+			}
+		}
+		sym(n - 308)
+		sym(n - 1)
+	}
+	utils.HadError = false
+	verifClearEvents()
+	s := NewScanner(src)
+	s.scanToken()
+	ascii := make([]rune, n)
+	for i := 0; i < n; i++ {
+		ascii[i] = sDigitValue(src[i])
+	}
+	want, err := strconv.ParseFloat(string(ascii), 64)
+	verifAssert("literal-is-scanned-whole", s.current == n)
+	if lead == 2 {
+		verifAssert("literal-in-range-parses", err == nil)
+	} else {
+		verifAssert("literal-out-of-range-fails-to-parse", err != nil)
+	}
+	if err != nil {
+		verifAssert("literal-out-of-range-is-rejected", len(s.tokens) == 0 && utils.HadError)
+		return
+	}
+	verifAssert("literal-in-range-is-a-token", len(s.tokens) == 1 && !utils.HadError)
+	if len(s.tokens) == 1 {
+		v, isF := s.tokens[0].Literal.(float64)
+		verifAssert("literal-value-is-parsefloat-of-transliterated-lexeme", isF && v == want)
 	}
 }
